@@ -312,6 +312,10 @@ class Gen(object):
                 d = 'bad_parent'
             elif choice < 0.45:
                 b['parent_provider_uuid'] = self.pick(m.subtree(u))
+                if self.chance(0.3):
+                    # another spelling of the same uuid is the same provider
+                    b['parent_provider_uuid'] = \
+                        b['parent_provider_uuid'].upper()
                 b['name'] = p['name']
                 d = 'loop'
             else:
